@@ -242,7 +242,13 @@ def _convert(node, lenient: bool, sql_of):
     if t is E.Paren:
         return ("paren", rec(node.this))
     if t is E.Column:
-        if node.args.get("table") or not isinstance(node.this, E.Identifier):
+        if not isinstance(node.this, E.Identifier):
+            return opaque()
+        if node.args.get("table"):
+            # blocking-rule style qualification: l.<col> / r.<col>
+            tb = node.args["table"].this if isinstance(node.args["table"], E.Identifier) else None
+            if tb in ("l", "r") and not node.args.get("db"):
+                return col(tb == "l", node.this.this)
             return opaque()
         name = node.this.this
         if name.endswith("_l"):
@@ -278,6 +284,16 @@ def _convert(node, lenient: bool, sql_of):
         return opaque()
     if t in ARITH:
         return ("arith", ARITH[t], rec(node.this), rec(node.expression))
+    # operators outside the arithmetic of the level library (custom SQL): kept as named binary functions
+    if t is E.DPipe:
+        return ("fn", "||", [rec(node.this), rec(node.expression)])
+    if t is E.IntDiv:
+        return ("fn", "int_div", [rec(node.this), rec(node.expression)])
+    if t is E.Mod:
+        return ("fn", "%", [rec(node.this), rec(node.expression)])
+    if t is E.Bracket and len(node.expressions) == 1 and isinstance(node.expressions[0], E.Literal) and not node.expressions[0].is_string:
+        # sqlglot normalises the dialect's first index to 0
+        return ("fn", "element0", [rec(node.this), lit(_number(node.expressions[0].this))])
     if t is E.Case:
         if node.args.get("this") is not None:
             return opaque()
